@@ -454,7 +454,7 @@ pub fn check_mix(case: &MixCase, info: &mut CaseInfo) -> Result<(), Fail> {
 pub fn run(ctx: &Ctx, rep: &mut Report) {
     let (n_pool, n_mix) = match ctx.tier {
         Tier::Quick => (480, 160),
-        Tier::Thorough => (4_800, 960),
+        Tier::Thorough => (12_000, 2_400),
     };
     run_prop(ctx, rep, "pool", pool_strategy(), n_pool, 200, check_pool);
     run_prop(ctx, rep, "mix", mix_strategy(), n_mix, 40, check_mix);
